@@ -1,4 +1,6 @@
 import Tw.Proofs.ConnSafety
+import Tw.Proofs.Conn6
+import Tw.Proofs.Conn7
 
 /-!
 # C01 (online cores alone): the prefix invariant of `Tw.NetSim.Core.Sys`
@@ -419,6 +421,195 @@ theorem run_dir {cfg : Cfg} (hc : cfg.Ok) : ∀ (ms : List Move) (s s' : Sys), (
     cases hs : step cfg s m with
     | none => rw [hs] at he; cases he
     | some s1 => rw [hs] at he; exact ih s1 s' (step_dir hc h m hs) he
+
+
+/-! ## The theorems of the first stage (formerly in `Props/C01.lean`; subsumed by `Tw.Props.C01.C01_all`) -/
+
+/-- **prefix theorem (online phase)**: for every admissible schedule from two fresh online endpoints,
+in both directions, what was handed over is a prefix of what was submitted -/
+theorem online_vital_prefix (cfg : Cfg) (hc : cfg.Ok) (ms : List Move) (s : Sys)
+    (h : run cfg Sys.init ms = some s) (x : Bool) : s.del (!x) <+: s.sub x := by
+  have := (run_dir hc ms Sys.init s (Sys.init_dir cfg) h x).pre
+  rw [this]
+  exact List.take_prefix _ _
+
+/-- … for the 0.6 and the 0.7 configuration -/
+theorem online_vital_prefix6 (ms : List Move) (s : Sys) (h : run Tw.Conn6.cfg Sys.init ms = some s)
+    (x : Bool) : s.del (!x) <+: s.sub x := online_vital_prefix _ Tw.Conn6.cfg_ok ms s h x
+
+theorem online_vital_prefix7 (ms : List Move) (s : Sys) (h : run Tw.Conn7.cfg Sys.init ms = some s)
+    (x : Bool) : s.del (!x) <+: s.sub x := online_vital_prefix _ Tw.Conn7.cfg_ok ms s h x
+
+/-- the receiver's ack and the sender's sequence are the two counters modulo 1024 (wrap-around) -/
+theorem online_counters (cfg : Cfg) (hc : cfg.Ok) (ms : List Move) (s : Sys)
+    (h : run cfg Sys.init ms = some s) (x : Bool) :
+    (s.ep (!x)).ack = (s.del (!x)).length % 1024 ∧ (s.ep x).sequence = (s.sub x).length % 1024 := by
+  have d := run_dir hc ms Sys.init s (Sys.init_dir cfg) h x
+  exact ⟨d.ack, d.seq⟩
+
+/-- every non-vital chunk handed over was submitted by the peer -/
+theorem online_nonvital_membership (cfg : Cfg) (hc : cfg.Ok) (ms : List Move) (s : Sys)
+    (h : run cfg Sys.init ms = some s) (x : Bool) : ∀ d ∈ s.nvDel (!x), d ∈ s.nvSub x :=
+  (run_dir hc ms Sys.init s (Sys.init_dir cfg) h x).nvd
+
+/-! ## "ready" -/
+
+theorem receiveLazy_no_ready (ack : Nat) (cs : List Chunk) : Event.ready ∉ receiveLazy ack cs := by
+  induction cs generalizing ack with
+  | nil => simp [receiveLazy]
+  | cons c cs ih =>
+    unfold receiveLazy
+    cases hv : c.vital with
+    | none => simp only; intro h; rcases List.mem_cons.mp h with h | h; cases h; exact ih _ h
+    | some v =>
+      obtain ⟨s, r⟩ := v
+      simp only
+      split
+      · intro h; rcases List.mem_cons.mp h with h | h; cases h; exact ih _ h
+      · exact ih _
+
+theorem receive_events {cfg : Cfg} {now : Nat} {o : Online} {snd : Tw.Time.Timeout} {rr : Bool} {cs : List Chunk}
+    {o' : Online} {s' : Tw.Time.Timeout} {fl : List Flushed} {evs : List Event}
+    (h : o.receive cfg now snd rr cs = .ok (o', s', fl, evs)) : ∃ a, evs = receiveLazy a cs := by
+  unfold Online.receive at h
+  cases rr with
+  | false =>
+    simp only [Bool.false_eq_true, if_false] at h
+    split at h
+    · cases h
+    · injection h with h; injection h with _ e2; injection e2 with _ e3; injection e3 with _ e4
+      exact ⟨_, e4.symm⟩
+  | true =>
+    simp only [if_true] at h
+    cases hr : o.resend cfg now snd with
+    | error e => rw [hr] at h; cases h
+    | ok r =>
+      obtain ⟨o2, s2, f2⟩ := r
+      rw [hr] at h
+      simp only at h
+      split at h
+      · cases h
+      · injection h with h; injection h with _ e2; injection e2 with _ e3; injection e3 with _ e4
+        exact ⟨_, e4.symm⟩
+
+theorem tickAction6_no_events (env : Tw.Conn6.Env) (c c' : Tw.Conn6.Conn) (out : Tw.Conn6.Out)
+    (h : Tw.Conn6.tickAction env c = .ok (c', out)) : out.events = [] := by
+  obtain ⟨st, snd⟩ := c
+  cases st <;> simp only [Tw.Conn6.tickAction] at h
+  · injection h with h; injection h with _ h; rw [← h]
+  · split at h
+    · cases h
+    · injection h with h; injection h with _ h; rw [← h]
+  · split at h
+    · cases h
+    · injection h with h; injection h with _ h; rw [← h]
+  · split at h
+    · split at h
+      · cases h
+      · injection h with h; injection h with _ h; rw [← h]
+    · split at h
+      · cases h
+      · injection h with h; injection h with _ h; rw [← h]
+  · injection h with h; injection h with _ h; rw [← h]
+
+/-- **0.6**: processing a packet yields `Ready` only if the packet is a `ConnectAccept` control
+packet and the connection is `Connecting`; the connection then goes online with that packet's token.
+(`feedBody` is `feed` after the token check; every other call of the API produces no event at all.) -/
+theorem conn6_ready_only_on_accept (env : Tw.Conn6.Env) (c c' : Tw.Conn6.Conn) (token : Option Nat)
+    (p : Tw.Conn6.Packet) (out : Tw.Conn6.Out)
+    (h : Tw.Conn6.feedBody env c token p = .ok (c', out)) (hr : Event.ready ∈ out.events) :
+    c.state = .connecting ∧ (∃ ack tok, p = .control ack tok .connectAccept) ∧ c'.state = .online token .new := by
+  obtain ⟨st, snd⟩ := c
+  cases p with
+  | connless d =>
+    simp only [Tw.Conn6.feedBody] at h
+    injection h with h; injection h with _ h; rw [← h] at hr; simp at hr
+  | chunks ack tk rr n cs =>
+    have key : ∀ (t : Option Nat) (o : Online),
+        (match o.receive Tw.Conn6.cfg env.now snd rr cs with
+          | .error e => .error e
+          | .ok (o1, send1, fl, evs) =>
+            match Tw.Conn6.emit (fl.map (Tw.Conn6.ofFlushed t)) with
+            | .error e => .error e
+            | .ok ps => .ok (⟨.online t o1, send1⟩, { sent := ps, events := evs })) = Except.ok (c', out) → False := by
+      intro t o hk
+      cases hrc : o.receive Tw.Conn6.cfg env.now snd rr cs with
+      | error e => rw [hrc] at hk; cases hk
+      | ok r =>
+        obtain ⟨o1, s1, fl, evs⟩ := r
+        rw [hrc] at hk
+        simp only at hk
+        split at hk
+        · cases hk
+        · injection hk with hk; injection hk with _ hk
+          rw [← hk] at hr
+          simp only at hr
+          -- the events are those of the lazy iterator
+          obtain ⟨a, ha⟩ := receive_events hrc
+          rw [ha] at hr
+          exact receiveLazy_no_ready _ _ hr
+    cases st with
+    | online t o => exact absurd h (fun hh => key t o hh)
+    | pending t => exact absurd h (fun hh => key t .new hh)
+    | unconnected => simp only [Tw.Conn6.feedBody] at h; injection h with h; injection h with _ h; rw [← h] at hr; simp at hr
+    | connecting => simp only [Tw.Conn6.feedBody] at h; injection h with h; injection h with _ h; rw [← h] at hr; simp at hr
+    | disconnected => simp only [Tw.Conn6.feedBody] at h; injection h with h; injection h with _ h; rw [← h] at hr; simp at hr
+  | control ack tk ctl =>
+    cases ctl with
+    | keepAlive => simp only [Tw.Conn6.feedBody] at h; injection h with h; injection h with _ h; rw [← h] at hr; simp at hr
+    | accept => simp only [Tw.Conn6.feedBody] at h; injection h with h; injection h with _ h; rw [← h] at hr; simp at hr
+    | close r => simp only [Tw.Conn6.feedBody] at h; injection h with h; injection h with _ h; rw [← h] at hr; simp at hr
+    | connect =>
+      cases st with
+      | unconnected =>
+        cases token with
+        | none =>
+          simp only [Tw.Conn6.feedBody] at h
+          have := tickAction6_no_events _ _ _ _ h
+          rw [this] at hr; simp at hr
+        | some t0 =>
+          simp only [Tw.Conn6.feedBody] at h
+          split at h
+          · split at h
+            · cases h
+            · have := tickAction6_no_events _ _ _ _ h
+              rw [this] at hr; simp at hr
+          · injection h with h; injection h with _ h; rw [← h] at hr; simp at hr
+      | online t o => simp only [Tw.Conn6.feedBody] at h; injection h with h; injection h with _ h; rw [← h] at hr; simp at hr
+      | pending t => simp only [Tw.Conn6.feedBody] at h; injection h with h; injection h with _ h; rw [← h] at hr; simp at hr
+      | connecting => simp only [Tw.Conn6.feedBody] at h; injection h with h; injection h with _ h; rw [← h] at hr; simp at hr
+      | disconnected => simp only [Tw.Conn6.feedBody] at h; injection h with h; injection h with _ h; rw [← h] at hr; simp at hr
+    | connectAccept =>
+      cases st with
+      | connecting =>
+        simp only [Tw.Conn6.feedBody] at h
+        split at h
+        · cases h
+        · injection h with h; injection h with h1 _
+          exact ⟨rfl, ⟨ack, tk, rfl⟩, by rw [← h1]⟩
+      | online t o => simp only [Tw.Conn6.feedBody] at h; injection h with h; injection h with _ h; rw [← h] at hr; simp at hr
+      | pending t => simp only [Tw.Conn6.feedBody] at h; injection h with h; injection h with _ h; rw [← h] at hr; simp at hr
+      | unconnected => simp only [Tw.Conn6.feedBody] at h; injection h with h; injection h with _ h; rw [← h] at hr; simp at hr
+      | disconnected => simp only [Tw.Conn6.feedBody] at h; injection h with h; injection h with _ h; rw [← h] at hr; simp at hr
+
+/-! ## Non-vacuity: an admissible schedule with loss, duplication and reordering; the guards are
+decidable and the statement computes -/
+
+def demo : List Move :=
+  [.send true [1] true, .send true [2] true, .flush true, .send true [3] true, .send true [9] false, .flush true,
+   .deliver false 1,      -- second datagram first: chunk 3 is from the future, a resend is requested
+   .deliver false 1,      -- duplicate
+   .flush false,
+   .deliver true 0,       -- the resend request reaches the sender: it resends everything
+   .flush true,
+   .deliver false 2,      -- the resent chunks arrive
+   .deliver false 0]      -- the delayed first datagram: all in the past
+
+example : (run Tw.Conn6.cfg Sys.init demo).map (fun s => (s.del false, s.sub true, s.nvDel false)) =
+    some ([[1], [2], [3]], [[1], [2], [3]], [[9], [9]]) := by decide +kernel
+
+example : Tw.Conn6.cfg.Ok ∧ Tw.Conn7.cfg.Ok := ⟨Tw.Conn6.cfg_ok, Tw.Conn7.cfg_ok⟩
+
 
 
 end Tw.NetSim.Core
